@@ -8,7 +8,7 @@
    NaN and infinities included (None). *)
 From Coq Require Import ZArith QArith Qabs List Bool Arith.
 From Inkfem Require Import Num.NumOps Model.Types Model.Slice Model.Dof Model.Assemble Model.Recover
-  Proofs.AcceptProofs Gen.GenAccept Proofs.AcceptBound.
+  Proofs.AcceptProofs Gen.GenAccept Proofs.AcceptBound Gen.GenPcg Proofs.PcgProofs.
 Import ListNotations.
 Local Open Scope Q_scope.
 
@@ -46,6 +46,34 @@ Theorem C05_supported_within_eps_partial : forall eps K f o u i,
   Qabs (uget u i) <= eps.
 Proof. exact accept_supported. Qed.
 Print Assumptions C05_supported_within_eps_partial.
+
+(* "exactly zero", on a model of the solver: Gen/GenPcg.v holds the loop of the preconditioned conjugate gradient of the inkmath
+   release that /repo's go.mod pins and /repo's diagonal preconditioner, compared statement by statement with the source on
+   every run.  Whatever the step lengths, after any number of passes of the loop the unknown of a trivial equation is exactly
+   zero; the supported numbers of every assembled system are such equations.  (In floating point the argument holds while the
+   step lengths are finite; otherwise the answer holds a NaN, which C05_nonfinite_rejected turns away.) *)
+Theorem C05_trivial_equations_stay_exactly_zero_in_the_solver : forall (n : nat) (A : nat -> nat -> Q) (b : nat -> Q) (i k : nat),
+  trivial_equation n A b i -> pcg_answer n A b k i == 0.
+Proof. exact trivial_equations_stay_exactly_zero. Qed.
+Print Assumptions C05_trivial_equations_stay_exactly_zero_in_the_solver.
+
+Theorem C05_supported_numbers_are_exactly_zero_in_the_solver :
+  forall (n : nat) (cs : list (nat * nat * Q)) (fs : list (nat * Q)) (sup : list nat) (i k : nat),
+  (i < n)%nat -> is_supported sup i = true -> pcg_answer n (k_final cs sup) (f_final fs sup) k i == 0.
+Proof. exact supported_numbers_stay_exactly_zero. Qed.
+Print Assumptions C05_supported_numbers_are_exactly_zero_in_the_solver.
+
+(* the model of the solver is a solver: 4x + y = 1, x + 3y = 2, z = 0 is solved exactly after two passes (and not after one) *)
+Example C05_the_solver_model_solves :
+  let A (i j : nat) : Q := match i, j with O, O => 4 | O, 1%nat => 1 | 1%nat, O => 1 | 1%nat, 1%nat => 3 | 2%nat, 2%nat => 1 | _, _ => 0 end in
+  let b (i : nat) : Q := match i with O => 1 | 1%nat => 2 | _ => 0 end in
+  trivial_equation 3 A b 2 /\
+  pcg_answer 3 A b 2 0 == 1 # 11 /\ pcg_answer 3 A b 2 1 == 7 # 11 /\ pcg_answer 3 A b 2 2 == 0 /\ ~ pcg_answer 3 A b 1 0 == 1 # 11.
+Proof.
+  cbv zeta. split.
+  - split; [repeat constructor|]. split; [| reflexivity]. intros [|[|[|j]]] Hj; reflexivity.
+  - repeat split; try (vm_compute; reflexivity). vm_compute. discriminate.
+Qed.
 
 (* the command: a rejected answer leaves the file system as it was; a solution file that
    appears holds an accepted answer *)
